@@ -89,7 +89,7 @@ func (e *Exec) coerce(st *State, v Term, from, to types.Type) Term {
 		}
 		if v.Sort == SInt {
 			if _, isPtr := from.Underlying().(*types.Pointer); isPtr {
-				return MkCont(IntLit(int64(e.kindCode(from))), v)
+				return st.contOf(e.kindCode(from), v)
 			}
 		}
 		// non-pointer dynamic value: opaque box
@@ -161,6 +161,8 @@ func (e *Exec) eval(st *State, x ast.Expr) Term {
 			return v
 		}
 		e.oblige(st, "assert", "", Eq(CKind(v), IntLit(int64(e.kindCode(to)))), "type assertion", x.Pos())
+		e.assume(st, Eq(CKind(v), IntLit(int64(e.kindCode(to)))))
+		st.learnKind(v, e.kindCode(to))
 		return CRef(v)
 	case *ast.FuncLit:
 		e.unsupportedf(x.Pos(), "function literal")
